@@ -36,66 +36,66 @@ import (
 // Prepare*Requests build the UpdateRequest (real setter closure).
 
 var c08Ctors = map[string]any{
-	"NewRouteNotAcceptedGatewayIgnored": staticConds.NewRouteNotAcceptedGatewayIgnored,
-	"NewDefaultRouteConditions": staticConds.NewDefaultRouteConditions,
-	"NewRouteNotAllowedByListeners": staticConds.NewRouteNotAllowedByListeners,
-	"NewRouteNoMatchingListenerHostname": staticConds.NewRouteNoMatchingListenerHostname,
-	"NewRouteAccepted": staticConds.NewRouteAccepted,
-	"NewRouteUnsupportedValue": staticConds.NewRouteUnsupportedValue,
-	"NewRoutePartiallyInvalid": staticConds.NewRoutePartiallyInvalid,
-	"NewRouteInvalidListener": staticConds.NewRouteInvalidListener,
-	"NewRouteHostnameConflict": staticConds.NewRouteHostnameConflict,
-	"NewRouteResolvedRefs": staticConds.NewRouteResolvedRefs,
-	"NewRouteBackendRefInvalidKind": staticConds.NewRouteBackendRefInvalidKind,
-	"NewRouteBackendRefRefNotPermitted": staticConds.NewRouteBackendRefRefNotPermitted,
-	"NewRouteBackendRefRefBackendNotFound": staticConds.NewRouteBackendRefRefBackendNotFound,
-	"NewRouteBackendRefUnsupportedValue": staticConds.NewRouteBackendRefUnsupportedValue,
-	"NewRouteInvalidGateway": staticConds.NewRouteInvalidGateway,
-	"NewRouteNoMatchingParent": staticConds.NewRouteNoMatchingParent,
-	"NewRouteUnsupportedConfiguration": staticConds.NewRouteUnsupportedConfiguration,
-	"NewRouteGatewayNotProgrammed": staticConds.NewRouteGatewayNotProgrammed,
-	"NewRouteInvalidIPFamily": staticConds.NewRouteInvalidIPFamily,
-	"NewRouteResolvedRefsInvalidFilter": staticConds.NewRouteResolvedRefsInvalidFilter,
-	"NewDefaultListenerConditions": staticConds.NewDefaultListenerConditions,
-	"NewListenerAccepted": staticConds.NewListenerAccepted,
-	"NewListenerProgrammed": staticConds.NewListenerProgrammed,
-	"NewListenerResolvedRefs": staticConds.NewListenerResolvedRefs,
-	"NewListenerNoConflicts": staticConds.NewListenerNoConflicts,
-	"NewListenerNotProgrammedInvalid": staticConds.NewListenerNotProgrammedInvalid,
-	"NewListenerUnsupportedValue": staticConds.NewListenerUnsupportedValue,
-	"NewListenerInvalidCertificateRef": staticConds.NewListenerInvalidCertificateRef,
-	"NewListenerInvalidRouteKinds": staticConds.NewListenerInvalidRouteKinds,
-	"NewListenerProtocolConflict": staticConds.NewListenerProtocolConflict,
-	"NewListenerHostnameConflict": staticConds.NewListenerHostnameConflict,
-	"NewListenerUnsupportedProtocol": staticConds.NewListenerUnsupportedProtocol,
-	"NewListenerRefNotPermitted": staticConds.NewListenerRefNotPermitted,
-	"NewGatewayClassResolvedRefs": staticConds.NewGatewayClassResolvedRefs,
-	"NewGatewayClassRefNotFound": staticConds.NewGatewayClassRefNotFound,
-	"NewGatewayClassInvalidParameters": staticConds.NewGatewayClassInvalidParameters,
-	"NewDefaultGatewayConditions": staticConds.NewDefaultGatewayConditions,
-	"NewGatewayAccepted": staticConds.NewGatewayAccepted,
-	"NewGatewayConflict": staticConds.NewGatewayConflict,
-	"NewGatewayAcceptedListenersNotValid": staticConds.NewGatewayAcceptedListenersNotValid,
-	"NewGatewayNotAcceptedListenersNotValid": staticConds.NewGatewayNotAcceptedListenersNotValid,
-	"NewGatewayInvalid": staticConds.NewGatewayInvalid,
-	"NewGatewayUnsupportedValue": staticConds.NewGatewayUnsupportedValue,
-	"NewGatewayProgrammed": staticConds.NewGatewayProgrammed,
-	"NewGatewayNotProgrammedInvalid": staticConds.NewGatewayNotProgrammedInvalid,
-	"NewGatewayConflictNotProgrammed": staticConds.NewGatewayConflictNotProgrammed,
-	"NewNginxGatewayValid": staticConds.NewNginxGatewayValid,
-	"NewNginxGatewayInvalid": staticConds.NewNginxGatewayInvalid,
-	"NewPolicyAccepted": staticConds.NewPolicyAccepted,
-	"NewPolicyInvalid": staticConds.NewPolicyInvalid,
-	"NewPolicyConflicted": staticConds.NewPolicyConflicted,
-	"NewPolicyTargetNotFound": staticConds.NewPolicyTargetNotFound,
-	"NewPolicyNotAcceptedTargetConflict": staticConds.NewPolicyNotAcceptedTargetConflict,
-	"NewPolicyNotAcceptedNginxProxyNotSet": staticConds.NewPolicyNotAcceptedNginxProxyNotSet,
-	"NewSnippetsFilterInvalid": staticConds.NewSnippetsFilterInvalid,
-	"NewSnippetsFilterAccepted": staticConds.NewSnippetsFilterAccepted,
-	"NewDefaultGatewayClassConditions": conditions.NewDefaultGatewayClassConditions,
+	"NewRouteNotAcceptedGatewayIgnored":         staticConds.NewRouteNotAcceptedGatewayIgnored,
+	"NewDefaultRouteConditions":                 staticConds.NewDefaultRouteConditions,
+	"NewRouteNotAllowedByListeners":             staticConds.NewRouteNotAllowedByListeners,
+	"NewRouteNoMatchingListenerHostname":        staticConds.NewRouteNoMatchingListenerHostname,
+	"NewRouteAccepted":                          staticConds.NewRouteAccepted,
+	"NewRouteUnsupportedValue":                  staticConds.NewRouteUnsupportedValue,
+	"NewRoutePartiallyInvalid":                  staticConds.NewRoutePartiallyInvalid,
+	"NewRouteInvalidListener":                   staticConds.NewRouteInvalidListener,
+	"NewRouteHostnameConflict":                  staticConds.NewRouteHostnameConflict,
+	"NewRouteResolvedRefs":                      staticConds.NewRouteResolvedRefs,
+	"NewRouteBackendRefInvalidKind":             staticConds.NewRouteBackendRefInvalidKind,
+	"NewRouteBackendRefRefNotPermitted":         staticConds.NewRouteBackendRefRefNotPermitted,
+	"NewRouteBackendRefRefBackendNotFound":      staticConds.NewRouteBackendRefRefBackendNotFound,
+	"NewRouteBackendRefUnsupportedValue":        staticConds.NewRouteBackendRefUnsupportedValue,
+	"NewRouteInvalidGateway":                    staticConds.NewRouteInvalidGateway,
+	"NewRouteNoMatchingParent":                  staticConds.NewRouteNoMatchingParent,
+	"NewRouteUnsupportedConfiguration":          staticConds.NewRouteUnsupportedConfiguration,
+	"NewRouteGatewayNotProgrammed":              staticConds.NewRouteGatewayNotProgrammed,
+	"NewRouteInvalidIPFamily":                   staticConds.NewRouteInvalidIPFamily,
+	"NewRouteResolvedRefsInvalidFilter":         staticConds.NewRouteResolvedRefsInvalidFilter,
+	"NewDefaultListenerConditions":              staticConds.NewDefaultListenerConditions,
+	"NewListenerAccepted":                       staticConds.NewListenerAccepted,
+	"NewListenerProgrammed":                     staticConds.NewListenerProgrammed,
+	"NewListenerResolvedRefs":                   staticConds.NewListenerResolvedRefs,
+	"NewListenerNoConflicts":                    staticConds.NewListenerNoConflicts,
+	"NewListenerNotProgrammedInvalid":           staticConds.NewListenerNotProgrammedInvalid,
+	"NewListenerUnsupportedValue":               staticConds.NewListenerUnsupportedValue,
+	"NewListenerInvalidCertificateRef":          staticConds.NewListenerInvalidCertificateRef,
+	"NewListenerInvalidRouteKinds":              staticConds.NewListenerInvalidRouteKinds,
+	"NewListenerProtocolConflict":               staticConds.NewListenerProtocolConflict,
+	"NewListenerHostnameConflict":               staticConds.NewListenerHostnameConflict,
+	"NewListenerUnsupportedProtocol":            staticConds.NewListenerUnsupportedProtocol,
+	"NewListenerRefNotPermitted":                staticConds.NewListenerRefNotPermitted,
+	"NewGatewayClassResolvedRefs":               staticConds.NewGatewayClassResolvedRefs,
+	"NewGatewayClassRefNotFound":                staticConds.NewGatewayClassRefNotFound,
+	"NewGatewayClassInvalidParameters":          staticConds.NewGatewayClassInvalidParameters,
+	"NewDefaultGatewayConditions":               staticConds.NewDefaultGatewayConditions,
+	"NewGatewayAccepted":                        staticConds.NewGatewayAccepted,
+	"NewGatewayConflict":                        staticConds.NewGatewayConflict,
+	"NewGatewayAcceptedListenersNotValid":       staticConds.NewGatewayAcceptedListenersNotValid,
+	"NewGatewayNotAcceptedListenersNotValid":    staticConds.NewGatewayNotAcceptedListenersNotValid,
+	"NewGatewayInvalid":                         staticConds.NewGatewayInvalid,
+	"NewGatewayUnsupportedValue":                staticConds.NewGatewayUnsupportedValue,
+	"NewGatewayProgrammed":                      staticConds.NewGatewayProgrammed,
+	"NewGatewayNotProgrammedInvalid":            staticConds.NewGatewayNotProgrammedInvalid,
+	"NewGatewayConflictNotProgrammed":           staticConds.NewGatewayConflictNotProgrammed,
+	"NewNginxGatewayValid":                      staticConds.NewNginxGatewayValid,
+	"NewNginxGatewayInvalid":                    staticConds.NewNginxGatewayInvalid,
+	"NewPolicyAccepted":                         staticConds.NewPolicyAccepted,
+	"NewPolicyInvalid":                          staticConds.NewPolicyInvalid,
+	"NewPolicyConflicted":                       staticConds.NewPolicyConflicted,
+	"NewPolicyTargetNotFound":                   staticConds.NewPolicyTargetNotFound,
+	"NewPolicyNotAcceptedTargetConflict":        staticConds.NewPolicyNotAcceptedTargetConflict,
+	"NewPolicyNotAcceptedNginxProxyNotSet":      staticConds.NewPolicyNotAcceptedNginxProxyNotSet,
+	"NewSnippetsFilterInvalid":                  staticConds.NewSnippetsFilterInvalid,
+	"NewSnippetsFilterAccepted":                 staticConds.NewSnippetsFilterAccepted,
+	"NewDefaultGatewayClassConditions":          conditions.NewDefaultGatewayClassConditions,
 	"NewGatewayClassSupportedVersionBestEffort": conditions.NewGatewayClassSupportedVersionBestEffort,
-	"NewGatewayClassUnsupportedVersion": conditions.NewGatewayClassUnsupportedVersion,
-	"NewGatewayClassConflict": conditions.NewGatewayClassConflict,
+	"NewGatewayClassUnsupportedVersion":         conditions.NewGatewayClassUnsupportedVersion,
+	"NewGatewayClassConflict":                   conditions.NewGatewayClassConflict,
 }
 
 // c08Call invokes a constructor of any of the four shapes.
